@@ -208,6 +208,12 @@ func (r *rng) gcSteps(est int64) []int64 {
 
 // cliEnabled is cleared when the instrumented cmd/php-parser could not be
 // built: scenario C is then not generated.
+// deepTier is set for the thorough tier: a third of its runs use wider bounds
+// (more tasks, files, operations, objects, larger inputs).
+var deepTier = false
+
+func (r *rng) deep() bool { return deepTier && r.chance(33) }
+
 var cliEnabled = true
 
 // knobEnabled is cleared when DefaultBlockSize could not be made a variable in
@@ -220,8 +226,13 @@ var cliVersions = []string{"", "", "", "7.4", "7.0", "5.6", "7.2"}
 // genC11CLI: the real command-line program over a small tree of files.
 func genC11CLI(c *corpus, r *rng, seed uint64) *scn.Scenario {
 	s := &scn.Scenario{Prop: "C11", RunSeed: seed, Kind: "C"}
+	deep := r.deep()
 	nf := r.pick([]int{1, 2, 2, 3, 3, 4, 5, 6, 8, 12})
 	pLarge := r.pick([]int{0, 0, 0, 3, 10})
+	if deep {
+		nf = 8 + r.n(17)
+		pLarge = r.pick([]int{0, 5, 15})
+	}
 	split := r.chance(30)
 	theme := ""
 	if r.chance(35) && len(c.themeNames) > 0 {
@@ -262,6 +273,9 @@ func genC11CLI(c *corpus, r *rng, seed uint64) *scn.Scenario {
 		s.CLIFlags = append(s.CLIFlags, "-phpver", v)
 	}
 	s.Workers = r.pick([]int{1, 2, 2, 3, 4, 4, 8})
+	if deep {
+		s.Workers = r.pick([]int{2, 4, 8, 12, 16})
+	}
 	var est int64 = 2000
 	for _, in := range s.Inputs {
 		est += int64(150 * len(in.Src))
@@ -284,13 +298,20 @@ func genC11(c *corpus, seed uint64) *scn.Scenario {
 	case x < 55:
 		s.Kind = "B"
 	}
+	deep := r.deep()
 	nt := r.pick([]int{2, 2, 2, 3, 3, 4, 4, 5, 6, 8})
-	maxPipes := 3
+	maxPipes, maxOps := 3, 7
+	if deep {
+		nt, maxPipes, maxOps = r.pick([]int{4, 6, 8, 10, 12, 16}), 4, 11
+	}
 	if s.Kind == "B" {
 		nt = 1 // pipelines are flattened: the topology supplies the tasks
 		maxPipes = 12
 		s.Workers = 1 + r.n(4)
 		s.QueueCap = 1 + r.n(4)
+		if deep {
+			maxPipes, s.Workers, s.QueueCap = 30, 1+r.n(12), 1+r.n(8)
+		}
 	}
 	// a small pool of inputs, some used by several pipelines (same input twice
 	// must give identical trees)
@@ -327,7 +348,7 @@ func genC11(c *corpus, seed uint64) *scn.Scenario {
 		var task scn.Task
 		for k := 1 + r.n(maxPipes); k > 0; k-- {
 			p := scn.Pipeline{Input: r.n(ni), ShareVersion: shareAll || r.chance(30)}
-			for o := r.n(7); o > 0; o-- {
+			for o := r.n(maxOps); o > 0; o-- {
 				op := scn.Op{Kind: c11Ops[r.n(len(c11Ops))]}
 				if opFaults && r.chance(25) {
 					// the operation is cut short by its writer (or, for traverse, by
@@ -393,6 +414,9 @@ func genC13(c *corpus, seed uint64) *scn.Scenario {
 	if r.chance(30) {
 		n = 1 + r.n(4)
 	}
+	if r.deep() {
+		n = 20 + r.n(60)
+	}
 	// swarm: a run uses a random subset of the operation kinds
 	var kinds []string
 	for _, k := range c13Ops {
@@ -456,6 +480,10 @@ func genC18(c *corpus, seed uint64) *scn.Scenario {
 	}
 	s.Kind = "pools"
 	nt := r.pick([]int{1, 1, 2, 2, 3, 4})
+	maxOps, maxTotal := 18, 20000
+	if r.deep() {
+		nt, maxOps, maxTotal = r.pick([]int{2, 4, 6, 8}), 60, 80000
+	}
 	total := 0
 	for t := 0; t < nt; t++ {
 		var pt scn.PoolTask
@@ -469,7 +497,7 @@ func genC18(c *corpus, seed uint64) *scn.Scenario {
 			}
 			pt.Pools = append(pt.Pools, sp)
 		}
-		nops := 2 + r.n(18)
+		nops := 2 + r.n(maxOps)
 		for o := 0; o < nops; o++ {
 			p := r.n(np)
 			switch x := r.n(100); {
@@ -489,7 +517,7 @@ func genC18(c *corpus, seed uint64) *scn.Scenario {
 				if n < 1 {
 					n = 1
 				}
-				if total+n > 20000 {
+				if total+n > maxTotal {
 					n = 1
 				}
 				total += n
